@@ -13,7 +13,7 @@ import ast
 
 from ..dataflow import RD
 from ..exprmodel import handwritten_expr_classes
-from ..inline import Inliner
+from ..inline import CallInliner, Inliner
 from ..loader import ancestors, AnalysisError, ClassInfo, FuncInfo, Tree, unparse, walk_function
 from ..paths import PathWalker
 from ..report import Check
@@ -152,10 +152,23 @@ def check_free_symbols(ctx: Check, tree: Tree) -> None:
     if fs is None or sub is None:
         raise AnalysisError("vanished anchor: PoolSum.free_symbols no longer subtracts the indices")
     problems = []
-    if "free_symbols" not in unparse(sub.left):
-        problems.append(f"minuend `{unparse(sub.left)}` is not the summand's/super's free_symbols")
-    right = sub.right
-    if isinstance(right, ast.SetComp) and len(right.generators) == 1:
+    # read through local temporaries: `bound = {...}; symbols = super().free_symbols; return symbols - bound`
+    rd = RD(fs.node)
+    inl = Inliner(fs.node, rd)
+    left = inl.expr(sub.left)
+    if isinstance(left, ast.Name):  # `symbols -= {...}`: the minuend is what `symbols` held before
+        for d in [d for d in rd.defs if d.kind == "aug" and d.name == left.id]:
+            before = rd.reaching(d.node.target)
+            if len(before) == 1 and next(iter(before)).kind == "assign" and next(iter(before)).value is not None:
+                left = inl.expr(next(iter(before)).value)
+    right = inl.expr(sub.right)
+    while isinstance(right, ast.Call) and isinstance(right.func, ast.Name) and right.func.id in {"set", "frozenset"} and len(right.args) == 1 and not right.keywords:
+        right = right.args[0]
+    if "free_symbols" not in unparse(left):
+        problems.append(f"minuend `{unparse(left)}` is not the summand's/super's free_symbols")
+    if index_role(right) == "symbols":
+        pass  # the index symbols, in any of the spellings index_role understands
+    elif isinstance(right, ast.SetComp) and len(right.generators) == 1:
         gen = right.generators[0]
         if gen.ifs:
             problems.append("subtrahend is filtered")
@@ -175,96 +188,199 @@ def check_free_symbols(ctx: Check, tree: Tree) -> None:
                 f"PoolSum.free_symbols = {unparse(sub)[:80]}", problems or None)
 
 
-def index_role(expr: ast.AST) -> str | None:
-    """Is this (inlined) expression the sequence of index symbols or of index pools?"""
-    method = None
-    if isinstance(expr, ast.Call) and isinstance(expr.func, ast.Attribute) and expr.func.attr in {"keys", "values"} and not expr.args:
-        method, expr = expr.func.attr, expr.func.value
-    if isinstance(expr, ast.Call) and isinstance(expr.func, ast.Name) and expr.func.id in {"list", "tuple"} and len(expr.args) == 1:
-        return index_role(expr.args[0]) if method is None else None
-    if isinstance(expr, ast.Call) and isinstance(expr.func, ast.Name) and expr.func.id == "dict" and len(expr.args) == 1 and unparse(expr.args[0]) == "self.indices":
-        return {"keys": "symbols", None: "symbols", "values": "pools"}[method]
-    if isinstance(expr, (ast.DictComp, ast.ListComp, ast.GeneratorExp, ast.SetComp)) and len(expr.generators) == 1:
-        gen = expr.generators[0]
-        if gen.ifs or unparse(gen.iter) != "self.indices" or not (isinstance(gen.target, ast.Tuple) and len(gen.target.elts) == 2):
-            return None
-        first, second = (unparse(e) for e in gen.target.elts)
+PAIRS = {"self.indices", "self.args[1:]"}
 
-        def role_of(e: ast.AST) -> str | None:
-            names = {n.id for n in ast.walk(e) if isinstance(n, ast.Name)} - {"tuple", "list"}
-            if names == {first}:
-                return "symbols"
-            if names == {second}:
-                return "pools"
-            return None
 
-        if isinstance(expr, ast.DictComp):
-            if method in {None, "keys"}:
-                return role_of(expr.key)
-            return role_of(expr.value)
-        return role_of(expr.elt) if method is None else None
+def _unwrap(e: ast.AST) -> ast.AST:
+    """list(x) / tuple(x) / iter(x): the same elements in the same order."""
+    while isinstance(e, ast.Call) and isinstance(e.func, ast.Name) and e.func.id in {"list", "tuple", "iter"} and len(e.args) == 1 and not e.keywords:
+        e = e.args[0]
+    return e
+
+
+def _element_role(e: ast.AST, target: ast.AST) -> str | None:
+    """Role of an expression built from one (symbol, pool) pair bound to ``target``."""
+    e = _unwrap(e)
+    if isinstance(target, ast.Tuple) and len(target.elts) == 2 and all(isinstance(t, ast.Name) for t in target.elts):
+        first, second = (t.id for t in target.elts)
+        if isinstance(e, ast.Name):
+            return "symbols" if e.id == first else "pools" if e.id == second else None
+        if isinstance(e, ast.Tuple) and len(e.elts) == 2 and _element_role(e.elts[0], target) == "symbols" and _element_role(e.elts[1], target) == "pools":
+            return "pairs"
+        return None
+    if isinstance(target, ast.Name):
+        if isinstance(e, ast.Name) and e.id == target.id:
+            return "pairs"
+        if isinstance(e, ast.Subscript) and isinstance(e.value, ast.Name) and e.value.id == target.id and isinstance(e.slice, ast.Constant) and e.slice.value in (0, 1):
+            return "symbols" if e.slice.value == 0 else "pools"
     return None
 
 
+def _mapping_roles(e: ast.AST) -> tuple[str, str, bool] | None:
+    """(role of the keys, role of the values, complete) of a dictionary built from the index pairs."""
+    if isinstance(e, ast.Call) and unparse(e.func).split(".")[-1] in {"dict", "OrderedDict"} and len(e.args) == 1 and not e.keywords:
+        r = seq_role(e.args[0])
+        if r is not None and r[0] == "pairs":
+            return "symbols", "pools", r[1]
+        return None
+    if isinstance(e, ast.DictComp) and len(e.generators) == 1:
+        gen = e.generators[0]
+        src = seq_role(gen.iter)
+        if src is None or src[0] != "pairs":
+            return None
+        k, v = _element_role(e.key, gen.target), _element_role(e.value, gen.target)
+        if k is None or v is None:
+            return None
+        return k, v, src[1] and not gen.ifs
+    return None
+
+
+def seq_role(e: ast.AST) -> tuple[str, bool] | None:
+    """What an (inlined) expression enumerates, in the order of the indices: ("symbols" | "pools" | "pairs",
+    complete?) - None if it is not recognisably derived from ``self.indices``.  complete=False: a slice or a
+    filtered comprehension (some indices are missing)."""
+    e = _unwrap(e)
+    if unparse(e) in PAIRS:
+        return "pairs", True
+    if isinstance(e, ast.Call) and isinstance(e.func, ast.Attribute) and e.func.attr in {"keys", "values", "items"} and not e.args and not e.keywords:
+        m = _mapping_roles(_unwrap(e.func.value)) if not isinstance(e.func.value, ast.Name) else None
+        if m is None:
+            return None
+        k, v, complete = m
+        if e.func.attr == "items":
+            return ("pairs", complete) if (k, v) == ("symbols", "pools") else None
+        return (k if e.func.attr == "keys" else v), complete
+    m = _mapping_roles(e)
+    if m is not None:  # iterating a dictionary gives its keys
+        return m[0], m[2]
+    if isinstance(e, (ast.ListComp, ast.GeneratorExp, ast.SetComp)) and len(e.generators) == 1:
+        gen = e.generators[0]
+        src = seq_role(gen.iter)
+        if src is None or src[0] != "pairs":
+            return None
+        role = _element_role(e.elt, gen.target)
+        return None if role is None else (role, src[1] and not gen.ifs)
+    if isinstance(e, ast.Subscript):
+        if isinstance(e.slice, ast.Slice):
+            r = seq_role(e.value)
+            return None if r is None else (r[0], False)
+        # symbols, pools = zip(*self.indices)
+        z = e.value
+        if (isinstance(z, ast.Call) and isinstance(z.func, ast.Name) and z.func.id == "zip" and len(z.args) == 1 and isinstance(z.args[0], ast.Starred)
+                and isinstance(e.slice, ast.Constant) and e.slice.value in (0, 1)):
+            r = seq_role(z.args[0].value)
+            if r is not None and r[0] == "pairs":
+                return ("symbols" if e.slice.value == 0 else "pools"), r[1]
+    return None
+
+
+def index_role(expr: ast.AST) -> str | None:
+    """Is this (inlined) expression the complete sequence of index symbols or of index pools?"""
+    r = seq_role(expr)
+    return r[0] if r is not None and r[1] and r[0] in {"symbols", "pools"} else None
+
+
+WRONG_COMBINATORS = {"zip", "itertools.zip_longest", "itertools.combinations", "itertools.permutations", "itertools.combinations_with_replacement", "itertools.chain", "map", "enumerate"}
+
+
 def check_evaluate(ctx: Check, tree: Tree) -> None:
+    """The value of evaluate() in closed form (locals inlined, accumulator loops already comprehensions):
+    Add(*[summand.subs(zip(index symbols, combi)) for combi in itertools.product(*all pools)]).  ``problems`` are
+    recognised deviations (violation); ``unknown`` are shapes the rule cannot interpret (ANALYSIS-ERROR unless a
+    definite problem was found as well)."""
     cls = tree.cls(POOLSUM)
     ev = cls.methods.get("evaluate")
     if ev is None:
         raise AnalysisError("vanished anchor: PoolSum.evaluate")
     rd = RD(ev.node)
-    inl = Inliner(ev.node, rd)
+    inl = CallInliner(tree, ev, rd)  # locals and extracted helpers read through
     key = f"{POOLSUM}.evaluate::shape"
-    problems = []
-    ret = [n for n in walk_function(ev.node) if isinstance(n, ast.Return)]
+    problems: list[str] = []
+    unknown: list[str] = []
+    ret = [n for n in walk_function(ev.node, nested=False) if isinstance(n, ast.Return)]
     if len(ret) != 1:
         raise AnalysisError("PoolSum.evaluate: expected exactly one return")
     val = inl.expr(ret[0].value)
-    if not (isinstance(val, ast.Call) and tree.resolve(ev.module, val.func, ev) == "sympy.Add"):
-        problems.append(f"result is `{unparse(val.func) if isinstance(val, ast.Call) else type(val).__name__}`, not sp.Add(...)")
+
+    def resolved(call: ast.AST) -> str | None:
+        if isinstance(call, ast.Call) and getattr(call, "_module", None) is not None:
+            return tree.callee(call, ev)
+        return None
+
     comp = None
     if isinstance(val, ast.Call):
+        q = resolved(val) or unparse(val.func)
+        if q == "sympy.Add" or (q == "sum" and len(val.args) == 1 and not val.keywords):
+            pass
+        elif q.startswith("sympy.") or q in {"max", "min", "math.prod"}:
+            problems.append(f"result is `{unparse(val.func)}`, not sp.Add(...)")
+        else:
+            unknown.append(f"result is built by `{unparse(val.func)}`")
         for a in val.args:
             inner = a.value if isinstance(a, ast.Starred) else a
             if isinstance(inner, (ast.ListComp, ast.GeneratorExp)):
                 comp = inner
-    if comp is None:
-        problems.append("no comprehension over the index combinations")
     else:
-        if len(comp.generators) != 1 or comp.generators[0].ifs:
-            problems.append("combinations are filtered or nested differently")
+        unknown.append(f"result `{unparse(val)[:60]}` is not a call")
+    if comp is None:
+        unknown.append("no comprehension over the index combinations")
+    else:
+        if any(g.ifs for g in comp.generators):
+            problems.append("combinations are filtered")
+        if len(comp.generators) != 1:
+            unknown.append("combinations are nested differently")
         gen = comp.generators[0]
         it = gen.iter
-        # the iterable is evaluated in the function scope: look at the un-inlined one for resolution
-        orig_comp = next((n for n in walk_function(ev.node) if isinstance(n, (ast.ListComp, ast.GeneratorExp))), None)
-        callee = tree.callee(orig_comp.generators[0].iter, ev) if orig_comp is not None and isinstance(orig_comp.generators[0].iter, ast.Call) else None
+        callee = resolved(it)
         if callee != "itertools.product":
-            problems.append(f"combinations come from `{callee or unparse(it)[:40]}`, not itertools.product")
+            if callee in WRONG_COMBINATORS or (isinstance(it, ast.Call) and unparse(it.func) in WRONG_COMBINATORS):
+                problems.append(f"combinations come from `{callee or unparse(it)[:40]}`, not itertools.product")
+            else:
+                unknown.append(f"combinations come from `{unparse(it)[:60]}`")
         elif not (isinstance(it, ast.Call) and len(it.args) == 1 and isinstance(it.args[0], ast.Starred) and not it.keywords):
-            problems.append("itertools.product is not applied to *all pools")
+            unknown.append("itertools.product is not applied to one starred sequence of pools")
         else:
-            pools_txt = unparse(it.args[0].value)
-            if index_role(it.args[0].value) != "pools":
-                problems.append(f"`{pools_txt[:70]}` is not the sequence of all index pools")
+            pools = it.args[0].value
+            r = seq_role(pools)
+            if r is None:
+                stored = [n for n in ast.walk(pools) if isinstance(n, ast.Name) and any(d.kind in {"store", "aug"} for d in rd.reaching(getattr(n, "_origin", n)))]
+                (problems if stored else unknown).append(f"`{unparse(pools)[:70]}` is not the sequence of all index pools" + (f" (`{stored[0].id}` is modified after it was built)" if stored else ""))
+            elif r != ("pools", True):
+                problems.append(f"`{unparse(pools)[:70]}` is not the sequence of all index pools ({r[0]}{'' if r[1] else ', incomplete'})")
         # element: self.expression.subs(zip(<index symbols>, combi)) / xreplace(dict(zip(...)))
         elt = comp.elt
         combi = unparse(gen.target)
-        ok_elt = False
         if isinstance(elt, ast.Call) and isinstance(elt.func, ast.Attribute) and elt.func.attr in {"subs", "xreplace"}:
-            base = unparse(elt.func.value)
-            if base not in {"self.expression", "self.args[0]"}:
-                problems.append(f"substitution is applied to `{base}`, not the summand")
-            zips = [c for c in ast.walk(elt) if isinstance(c, ast.Call) and isinstance(c.func, ast.Name) and c.func.id == "zip"]
+            base = elt.func.value
+            if unparse(base) not in {"self.expression", "self.args[0]"}:
+                # a local with several definitions: is every one of them the summand?
+                defs = rd.reaching(getattr(base, "_origin", base)) if isinstance(base, ast.Name) else set()
+                others = [unparse(d.value)[:40] for d in defs if d.value is not None and unparse(inl.expr(d.value)) not in {"self.expression", "self.args[0]"}]
+                if others or not isinstance(base, ast.Name):
+                    problems.append(f"substitution is applied to `{unparse(base)[:40]}`, not the summand" + (f" (it may hold `{others[0]}`)" if others else ""))
+                else:
+                    unknown.append(f"substitution is applied to `{unparse(base)[:40]}`")
+            arg = elt.args[0] if elt.args else None
+            while isinstance(arg, ast.Call) and isinstance(arg.func, ast.Name) and arg.func.id in {"list", "tuple", "dict"} and len(arg.args) == 1 and not arg.keywords:
+                arg = arg.args[0]
+            zips = [arg] if isinstance(arg, ast.Call) and isinstance(arg.func, ast.Name) and arg.func.id == "zip" else []
             if len(zips) == 1 and len(zips[0].args) == 2:
                 a0, a1 = (unparse(x) for x in zips[0].args)
                 if a1 != combi:
                     problems.append(f"zip pairs `{a0[:40]}` with `{a1[:40]}` instead of the combination `{combi}`")
-                if index_role(zips[0].args[0]) != "symbols":
-                    problems.append(f"zip keys `{a0[:60]}` are not the index symbols")
-                ok_elt = True
-        if not ok_elt and not problems:
-            problems.append(f"summand element `{unparse(elt)[:60]}` is not <summand>.subs(zip(<indices>, <combination>))")
+                r = seq_role(zips[0].args[0])
+                if r is None:
+                    unknown.append(f"zip keys `{a0[:60]}`")
+                elif r != ("symbols", True):
+                    problems.append(f"zip keys `{a0[:60]}` are not the index symbols ({r[0]}{'' if r[1] else ', incomplete'})")
+            else:
+                unknown.append(f"summand element `{unparse(elt)[:60]}` is not <summand>.subs(zip(<indices>, <combination>))")
+        else:
+            unknown.append(f"summand element `{unparse(elt)[:60]}` is not <summand>.subs(zip(<indices>, <combination>))")
+    if unknown and not problems:
+        raise AnalysisError("PoolSum.evaluate: cannot interpret - " + "; ".join(unknown))
     ctx.verdict(not problems, "R-SUMSHAPE", key, tree.loc(ev.node),
-                "PoolSum.evaluate = Add(*[summand.subs(zip(index symbols, combi)) for combi in itertools.product(*all pools)])", problems or None)
+                "PoolSum.evaluate = Add(*[summand.subs(zip(index symbols, combi)) for combi in itertools.product(*all pools)])", (problems + [f"(not interpreted: {u})" for u in unknown]) or None)
     # doit delegates to evaluate
     doit = cls.methods.get("doit")
     if doit is not None:
@@ -274,18 +390,26 @@ def check_evaluate(ctx: Check, tree: Tree) -> None:
 
 def check_new(ctx: Check, tree: Tree) -> bool:
     """__new__ rejects empty pools (makes the `len(values) == 0` path of cleanup dead)."""
+    from ..canon import emptiness_fact
+
     new = tree.cls(POOLSUM).methods.get("__new__")
     if new is None:
         return False
-    import re
-
-    # ... in __new__ itself or in a helper of the same module that it calls (extracted validation)
+    # ... in __new__ itself or in a helper of the same module that it calls (extracted validation):
+    # a branch that raises exactly when a container taken from the loop over the indices is empty
     reach = [q for q in tree.reachable(new.qual) if q in tree.funcs and tree.funcs[q].module is new.module]
     for q in reach:
-        for node in walk_function(tree.funcs[q].node):
-            if isinstance(node, ast.If) and any(isinstance(s, ast.Raise) for s in node.body):
-                t = unparse(node.test).replace(" ", "")
-                if re.fullmatch(r"len\(\w+\)==0|notlen\(\w+\)|not\w+", t) or re.fullmatch(r"len\(\w+\)<1", t):
+        g = tree.funcs[q]
+        rd = RD(g.node)
+
+        def from_loop(e: ast.AST, rd=rd) -> bool:
+            return isinstance(e, ast.Name) and any(d.kind == "for" for d in rd.closure(rd.reaching(e)))
+
+        for node in walk_function(g.node):
+            if not isinstance(node, ast.If):
+                continue
+            for outcome, branch in ((True, node.body), (False, node.orelse)):
+                if any(isinstance(s, ast.Raise) for s in branch) and emptiness_fact(node.test, outcome, from_loop) == "empty":
                     return True
     return False
 
@@ -297,12 +421,77 @@ def _name_safe(text: str, idx: str, values: str) -> str:
     return re.sub(rf"\b{re.escape(values)}\b", "<pool>", text)
 
 
+def _poolsum_call(tree: Tree, fn: FuncInfo, e: ast.AST) -> bool:
+    if not isinstance(e, ast.Call):
+        return False
+    q = tree.callee(e, fn) if getattr(e, "_module", None) is not None else None
+    return q == POOLSUM or "PoolSum" in unparse(e.func) or unparse(e.func) in {"type(self)", "self.__class__", "self.func"}
+
+
+def _stores_into(st: ast.AST) -> tuple[str, ast.AST] | None:
+    """(container, what is put in) for the statements that put something into a local container."""
+    if isinstance(st, ast.Assign) and len(st.targets) == 1 and isinstance(st.targets[0], ast.Subscript) and isinstance(st.targets[0].value, ast.Name):
+        return st.targets[0].value.id, ast.Tuple(elts=[st.targets[0].slice, st.value], ctx=ast.Load())
+    if isinstance(st, ast.Expr) and isinstance(st.value, ast.Call) and isinstance(st.value.func, ast.Attribute) and isinstance(st.value.func.value, ast.Name) \
+            and st.value.func.attr in {"append", "add", "insert", "update", "extend", "setdefault", "__setitem__"}:
+        return st.value.func.value.id, ast.Tuple(elts=list(st.value.args), ctx=ast.Load())
+    if isinstance(st, ast.AugAssign) and isinstance(st.target, ast.Name) and isinstance(st.op, (ast.Add, ast.BitOr)):
+        return st.target.id, st.value
+    if isinstance(st, ast.Assign) and len(st.targets) == 1 and isinstance(st.targets[0], ast.Name) and any(
+            isinstance(n, ast.Name) and n.id == st.targets[0].id for n in ast.walk(st.value)):
+        return st.targets[0].id, st.value  # acc = [*acc, x] / acc = acc + [x]
+    return None
+
+
+def _pool_sizes(test: ast.AST, outcome: bool, is_pool) -> set[int] | None:
+    """The abstract sizes of the pool (0, 1, 2 = two or more) for which the test can have this outcome; None
+    if the test does not compare the size of the pool with a constant.  `len(v) == 1`, `len(v) != 1`, `len(v) > 1`,
+    `1 < len(v)`, `not v`, `v == ()` ... all become statements about the same three cases."""
+    from ..canon import normal_test
+
+    test, outcome = normal_test(test, outcome)
+
+    def is_len(e):
+        return isinstance(e, ast.Call) and isinstance(e.func, ast.Name) and e.func.id == "len" and len(e.args) == 1 and not e.keywords and is_pool(e.args[0])
+
+    def empty_display(e):
+        return (isinstance(e, (ast.List, ast.Tuple, ast.Set)) and not e.elts) or (isinstance(e, ast.Dict) and not e.keys) or (
+            isinstance(e, ast.Call) and isinstance(e.func, ast.Name) and e.func.id in {"tuple", "list", "set", "frozenset"} and not e.args and not e.keywords)
+
+    if is_pool(test) or is_len(test):
+        return {1, 2} if outcome else {0}
+    if not (isinstance(test, ast.Compare) and len(test.ops) == 1):
+        return None
+    a, op, b = test.left, test.ops[0], test.comparators[0]
+    if isinstance(op, ast.Eq) and ((is_pool(a) and empty_display(b)) or (is_pool(b) and empty_display(a))):
+        return {0} if outcome else {1, 2}
+    mirror = {ast.Lt: ast.Gt, ast.Gt: ast.Lt, ast.LtE: ast.GtE, ast.GtE: ast.LtE, ast.Eq: ast.Eq}
+    if is_len(b) and isinstance(a, ast.Constant) and type(op) in mirror:
+        a, op, b = b, mirror[type(op)](), a
+    if not (is_len(a) and isinstance(b, ast.Constant) and isinstance(b.value, int) and not isinstance(b.value, bool)):
+        return None
+    k = b.value
+    holds = {ast.Eq: lambda n: n == k, ast.Lt: lambda n: n < k, ast.LtE: lambda n: n <= k, ast.Gt: lambda n: n > k, ast.GtE: lambda n: n >= k}.get(type(op))
+    if holds is None:
+        return None
+    out = set()
+    for size, members in ((0, [0]), (1, [1]), (2, range(2, max(k, 2) + 3))):
+        if any(holds(n) == outcome for n in members):
+            out.add(size)
+    return out
+
+
 def check_cleanup(ctx: Check, tree: Tree) -> None:
+    from ..canon import emptiness_fact, normal_test
+    from ..paths import atomic_tests
+
     cls = tree.cls(POOLSUM)
     fn = cls.methods.get("cleanup")
     if fn is None:
         raise AnalysisError("vanished anchor: PoolSum.cleanup")
-    loops = [n for n in walk_function(fn.node) if isinstance(n, ast.For) and "indices" in unparse(n.iter)]
+    rd = RD(fn.node)
+    inl = CallInliner(tree, fn, rd)
+    loops = [n for n in walk_function(fn.node) if isinstance(n, ast.For) and "indices" in unparse(inl.expr(n.iter))]
     if len(loops) != 1:
         raise AnalysisError("PoolSum.cleanup: expected one loop over self.indices")
     loop = loops[0]
@@ -310,79 +499,157 @@ def check_cleanup(ctx: Check, tree: Tree) -> None:
         raise AnalysisError("PoolSum.cleanup: loop target is not (idx, values)")
     idx, values = (unparse(e) for e in loop.target.elts)
     empty_rejected = check_new(ctx, tree)
+    # roles of the local containers: what goes into the rebuilt PoolSum(...) is retained, what is substituted into the summand is substituted
+    returns = [r for r in walk_function(fn.node, nested=False) if isinstance(r, ast.Return) and r.value is not None]
+    retained_names: set[str] = set()
+    subst_names: set[str] = set()
+    for c in [c for c in walk_function(fn.node, nested=False) if isinstance(c, ast.Call) and _poolsum_call(tree, fn, c)]:
+        for a in inl.expr(c).args[1:]:
+            retained_names |= {n.id for n in ast.walk(a) if isinstance(n, ast.Name)}
+    for node in walk_function(fn.node, nested=False):
+        if isinstance(node, ast.Call) and isinstance(node.func, ast.Attribute) and node.func.attr in {"subs", "xreplace", "replace"} and node.args:
+            if unparse(inl.expr(node.func.value)) in {"self.expression", "self.args[0]"}:
+                subst_names |= {n.id for n in ast.walk(inl.expr(node.args[0])) if isinstance(n, ast.Name)}
+    containers = {c for st in walk_function(loop, nested=False) for c in [(_stores_into(st) or (None,))[0]] if c}
+    retained_names &= containers
+    subst_names &= containers
+    if not retained_names:
+        raise AnalysisError("PoolSum.cleanup: no container of retained indices flows into the rebuilt PoolSum(...)")
     walker = PathWalker(tree)
+
+    def is_pool(e: ast.AST) -> bool:
+        return isinstance(e, ast.Name) and e.id == values
+
+    domain = {1, 2} if empty_rejected else {0, 1, 2}
+    render = {frozenset({0}): "len(<pool>) == 0", frozenset({1}): "len(<pool>) == 1", frozenset({2}): "len(<pool>) > 1", frozenset({0, 1}): "len(<pool>) <= 1",
+              frozenset({1, 2}): "len(<pool>) >= 1", frozenset({0, 2}): "len(<pool>) != 1"}
     # paths through one loop iteration only: wrap the body
     seen: dict[str, tuple] = {}
-    for events, status, _ in walker._block(loop.body, fn, 0):
-        from ..canon import normal_test
-
-        tests = []
-        for e in events:
-            if e[0] == "test":
-                t_, o_ = normal_test(e[1], e[2])
-                tests.append((_name_safe(unparse(t_), idx, values), o_))
-        stmts = [e[1] for e in events if e[0] == "stmt"]
-        retained = any(
-            isinstance(s, ast.Expr) and isinstance(s.value, ast.Call) and isinstance(s.value.func, ast.Attribute) and s.value.func.attr in {"append", "add"}
-            and idx in {n.id for n in ast.walk(s.value) if isinstance(n, ast.Name)} for s in stmts
-        )
-        substituted = any(
-            isinstance(s, ast.Assign) and isinstance(s.targets[0], ast.Subscript) and unparse(s.targets[0].slice) == idx for s in stmts
-        )
-        compensated = any(f"len({values})" in unparse(s) and isinstance(s, (ast.Assign, ast.AugAssign)) for s in stmts)
-        cond = " and ".join(f"{'' if o else 'not '}({t})" for t, o in tests) or "always"
-
-        fate = "retained" if retained else "substituted" if substituted else "compensated" if compensated else "dropped"
-        seen[cond] = (fate, tests)
+    for events0, status, _ in walker._block(loop.body, fn, 0):
+        for events in atomic_tests(events0):
+            tests = []  # conditions that are not about the size of the pool, in positive normal form
+            raw = []
+            sizes = set(domain)  # abstract pool sizes (0, 1, 2 = several) this path is taken for
+            for e in events:
+                if e[0] == "test":
+                    inlined = inl.expr(e[1])
+                    t_, o_ = normal_test(inlined, e[2])
+                    raw.append((_name_safe(unparse(t_), idx, values), o_))
+                    possible = _pool_sizes(inlined, e[2], is_pool)
+                    if possible is None:
+                        tests.append(raw[-1])
+                    else:
+                        sizes &= possible
+            if len({t for t, _ in tests}) < len(set(tests)):
+                continue  # contradictory alternative (a test with both outcomes): not a path
+            stmts = [e[1] for e in events if e[0] == "stmt"]
+            stores = [s_ for s_ in map(_stores_into, stmts) if s_ is not None and idx in {n.id for n in ast.walk(s_[1]) if isinstance(n, ast.Name)}]
+            retained = any(c in retained_names for c, _ in stores)
+            substituted = any(c in subst_names for c, _ in stores)
+            # compensation: a product with the pool size
+            compensated = False
+            for s_ in stmts:
+                if isinstance(s_, (ast.Assign, ast.AugAssign)) and s_.value is not None:
+                    val = inl.expr(s_.value)
+                    mult = (isinstance(s_, ast.AugAssign) and isinstance(s_.op, ast.Mult)) or any(
+                        isinstance(n, ast.BinOp) and isinstance(n.op, ast.Mult) for n in ast.walk(val)) or any(
+                        isinstance(n, ast.Call) and unparse(n.func).split(".")[-1] == "Mul" for n in ast.walk(val))
+                    if mult and f"len({values})" in unparse(val):
+                        compensated = True
+            if not sizes:
+                cond = " and ".join(f"{'' if o else 'not '}({t})" for t, o in raw) or "always"
+                seen[cond] = ("dead", sizes)
+                continue
+            shown = list(tests)
+            if sizes != domain:
+                shown.append((render[frozenset(sizes)], True))
+            cond = " and ".join(f"{'' if o else 'not '}({t})" for t, o in shown) or "always"
+            fate = "retained" if retained else "substituted" if substituted else "compensated" if compensated else "dropped"
+            seen[cond] = (fate, sizes)
     if len(seen) < 3:
         raise AnalysisError(f"PoolSum.cleanup: only {len(seen)} paths through the loop body")
-    for cond, (fate, tests) in sorted(seen.items()):
+    for cond, (fate, sizes) in sorted(seen.items()):
         where = tree.loc(loop)
         what = f"PoolSum.cleanup, index with [{cond}]: {fate}"
-        if fate != "dropped":
-            if fate == "substituted":
-                # a substituted index must have exactly one value on this path
-                single = any("== 1" in t and o for t, o in tests)
-                ctx.verdict(single, "R-DROP", f"{POOLSUM}.cleanup::substitute::{cond}", where, what + " by its single value",
-                            None if single else "substituted although the pool may hold several values")
-            else:
-                ctx.ok("R-DROP", where, what)
-            continue
-        if any("len(<pool>) == 0" in t and o for t, o in tests) and empty_rejected:
-            ctx.ok("R-DROP", where, what + " - dead path: PoolSum.__new__ rejects empty pools")
-            continue
-        ctx.violation(
-            "R-DROP",
-            f"{POOLSUM}.cleanup::drop::{cond}",
-            where,
-            what + " without the factor len(<pool>)",
-            "PoolSum(x, (i, [0,1,2])): .doit() = 3*x, .cleanup() = x - an index that does not occur in the summand still multiplies the sum by its pool size",
-        )
+        if fate == "dead":
+            ctx.ok("R-DROP", where, f"PoolSum.cleanup, index with [{cond}]: dropped - dead path: PoolSum.__new__ rejects empty pools")
+        elif fate == "substituted":
+            # a substituted index must have exactly one value on this path
+            single = sizes <= {1}
+            ctx.verdict(single, "R-DROP", f"{POOLSUM}.cleanup::substitute::{cond}", where, what + " by its single value",
+                        None if single else "substituted although the pool may hold several values")
+        elif fate != "dropped":
+            ctx.ok("R-DROP", where, what)
+        else:
+            ctx.violation(
+                "R-DROP",
+                f"{POOLSUM}.cleanup::drop::{cond}",
+                where,
+                what + " without the factor len(<pool>)",
+                "PoolSum(x, (i, [0,1,2])): .doit() = 3*x, .cleanup() = x - an index that does not occur in the summand still multiplies the sum by its pool size",
+            )
     # the rebuilt sum uses the substituted summand and all retained indices
-    rd = RD(fn.node)
+    loop_containers = {c for st in walk_function(loop, nested=False) for c in [(_stores_into(st) or (None,))[0]] if c and isinstance(st, ast.Assign) and isinstance(st.targets[0], ast.Subscript)}
+    function_paths = PathWalker(tree).paths(fn)
+
+    def path_value(p, ret: ast.Return) -> ast.AST:
+        """What this path returns: a returned local that was assigned in several branches is the value of
+        the assignment the path went through."""
+        v = ret.value
+        for _ in range(5):
+            if not (isinstance(v, ast.Name) and len(rd.reaching(v)) > 1):
+                break
+            last = None
+            for e in p.events:
+                if e[0] == "stmt" and isinstance(e[1], (ast.Assign, ast.AnnAssign)) and e[1].value is not None:
+                    tgts = e[1].targets if isinstance(e[1], ast.Assign) else [e[1].target]
+                    if any(isinstance(t, ast.Name) and t.id == v.id for t in tgts):
+                        last = e[1].value
+            if last is None:
+                break
+            v = last
+        return inl.expr(v)
+
+    def whole(e: ast.AST) -> bool:
+        while isinstance(e, ast.Call) and isinstance(e.func, ast.Name) and e.func.id in {"tuple", "list"} and len(e.args) == 1 and not e.keywords:
+            e = e.args[0]
+        return isinstance(e, ast.Name) and e.id in retained_names
+
     for ret, _ in rd.returns:
         if ret.value is None:
             continue
         deps = {d.name for d in rd.closure(rd.uses(ret.value))}
-        subs_names = {unparse(s.targets[0].value) for s in walk_function(loop) if isinstance(s, ast.Assign) and isinstance(s.targets[0], ast.Subscript)}
-        ok = bool(subs_names & deps)
+        ok = bool((loop_containers | subst_names) & deps)
         ctx.verdict(ok, "R-DROP", f"{POOLSUM}.cleanup::return::{unparse(ret.value)[:40]}", tree.loc(ret),
                     f"PoolSum.cleanup `{unparse(ret)[:60]}` applies the collected substitutions", None if ok else "single-valued indices are dropped without being substituted")
-        if not (isinstance(ret.value, ast.Call) and "PoolSum" in unparse(ret.value.func)):
-            # the bare summand may only be returned when no summation index is left
-            retained_names = {unparse(s.value.func.value) for s in walk_function(loop) if isinstance(s, ast.Expr) and isinstance(s.value, ast.Call)
-                              and isinstance(s.value.func, ast.Attribute) and s.value.func.attr in {"append", "add"}}
-            guards = [a for a in ancestors(ret) if isinstance(a, ast.If) and any(ret is n for b in a.body for n in ast.walk(b))]
-            def empty_test(t):
-                t_ = unparse(t).replace(" ", "")
-                return any(t_ in {f"len({r})==0", f"not{r}", f"{r}==[]", f"len({r})<1"} for r in retained_names)
-            ok3 = bool(guards) and all(empty_test(g.test) for g in guards)
+        reaching = [p for p in function_paths if p.exit == "return" and p.exit_node is ret]
+        if not reaching:
+            raise AnalysisError(f"PoolSum.cleanup: no path reaches `{unparse(ret)[:50]}`")
+        bare_paths, sum_values, bad_paths = 0, [], []
+        for p in reaching:
+            value = path_value(p, ret)
+            if _poolsum_call(tree, fn, value):
+                sum_values.append(value)
+                continue
+            bare_paths += 1
+            # the bare summand may only be returned when no summation index is left: the path has established, after
+            # the loop, that the container(s) of retained indices are empty
+            after = p.events
+            for i, e in enumerate(p.events):
+                if (e[0] == "iter" and e[1] is loop) or (e[0] in {"stmt", "test"} and any(e[1] is n for n in ast.walk(loop))):
+                    after = p.events[i + 1:]
+            for alt in atomic_tests(after):
+                for r_ in sorted(retained_names):
+                    facts = {emptiness_fact(inl.expr(e[1]), e[2], lambda x, r_=r_: isinstance(x, ast.Name) and x.id == r_) for e in alt if e[0] == "test"}
+                    if "empty" not in facts or "nonempty" in facts:
+                        bad_paths.append(" and ".join(f"{'' if e[2] else 'not '}({unparse(e[1])[:40]})" for e in alt if e[0] == "test") or "unconditionally")
+        if bare_paths:
+            ok3 = not bad_paths
             ctx.verdict(ok3, "R-DROP", f"{POOLSUM}.cleanup::bare-summand-iff-no-index", tree.loc(ret),
-                        f"PoolSum.cleanup returns the bare summand only when no summation index is retained",
-                        None if ok3 else {"guards": [unparse(g.test) for g in guards]})
-        if isinstance(ret.value, ast.Call) and "PoolSum" in unparse(ret.value.func):
-            star = [a for a in ret.value.args if isinstance(a, ast.Starred)]
-            ok2 = bool(star) and not isinstance(star[0].value, ast.Subscript)
+                        "PoolSum.cleanup returns the bare summand only when no summation index is retained",
+                        None if ok3 else {"returned-when": sorted(set(bad_paths))[:4]})
+        if sum_values:
+            ok2 = all(any(isinstance(a, ast.Starred) for a in v.args) and all(whole(a.value) for a in v.args if isinstance(a, ast.Starred)) for v in sum_values)
             ctx.verdict(ok2, "R-DROP", f"{POOLSUM}.cleanup::return-indices", tree.loc(ret), "PoolSum.cleanup rebuilds the sum with all retained indices")
 
 
@@ -392,27 +659,45 @@ def check_binding_aware_substitution(ctx: Check, tree: Tree) -> None:
     `_eval_subs` guard of nested sums).  `xreplace` is purely structural: it also rewrites
     an index of the same name that is bound by a nested PoolSum."""
     cls = tree.cls(POOLSUM)
-    n = 0
+    sites: dict[tuple, tuple] = {}
     for name, m in sorted(cls.methods.items()):
         rd = RD(m.node)
-        for node in walk_function(m.node):
-            if not (isinstance(node, ast.Call) and isinstance(node.func, ast.Attribute) and node.func.attr in {"subs", "xreplace", "replace"}):
-                continue
-            recv = unparse(node.func.value)
-            if recv not in {"self.expression", "self.args[0]"} or not node.args:
-                continue
-            # does the mapping consist of this sum's own index symbols?
-            srcs = [unparse(node.args[0])] + [unparse(d.value) for d in rd.closure(rd.uses(node.args[0])) if d.value is not None]
-            iter_srcs = [unparse(d.node.iter) for d in rd.closure(rd.uses(node.args[0])) if d.kind == "for" and hasattr(d.node, "iter")]
-            if not any("self.indices" in t for t in srcs + iter_srcs):
-                continue
-            n += 1
-            ok = node.func.attr == "subs"
-            ctx.verdict(ok, "R-BINDSUBST", f"{m.qual}::{node.func.attr} of own indices", tree.loc(node),
-                        f"PoolSum.{name}: `{unparse(node)[:60]}` substitutes the sum's own index symbols into the summand with {node.func.attr}()",
-                        None if ok else "xreplace ignores binding: PoolSum(i + PoolSum(i**2, (i, (1, 2))), (i, (3,))).cleanup() rewrites the inner, shadowed index -> value 21 instead of 8")
-    if n < 2:
-        raise AnalysisError(f"only {n} substitutions of own indices found in PoolSum (evaluate and cleanup confirmed)")
+        inl = CallInliner(tree, m, rd)
+        # every expression a statement of the method evaluates, in closed form: locals read through (`summand =
+        # self.expression; summand.subs(...)` is the same call) and helper methods replaced by the value they return
+        exprs = []
+        for st in walk_function(m.node, nested=False):
+            if isinstance(st, (ast.Return, ast.Assign, ast.AnnAssign, ast.AugAssign, ast.Expr)) and st.value is not None:
+                exprs.append(st.value)
+            elif isinstance(st, (ast.If, ast.While)):
+                exprs.append(st.test)
+            elif isinstance(st, ast.For):
+                exprs.append(st.iter)
+        for e in exprs:
+            for node in ast.walk(inl.expr(e)):
+                if not (isinstance(node, ast.Call) and isinstance(node.func, ast.Attribute) and node.func.attr in {"subs", "xreplace", "replace"}):
+                    continue
+                if unparse(node.func.value) not in {"self.expression", "self.args[0]"} or not node.args:
+                    continue
+                # does the mapping consist of this sum's own index symbols?
+                arg = node.args[0]
+                texts = [unparse(arg)]
+                for n_ in ast.walk(arg):
+                    if isinstance(n_, ast.Name) and isinstance(n_.ctx, ast.Load):
+                        closure = rd.closure(rd.reaching(getattr(n_, "_origin", n_)))
+                        texts += [unparse(inl.expr(d.value)) for d in closure if isinstance(d.value, ast.AST)]
+                        texts += [unparse(inl.expr(d.node.iter)) for d in closure if d.kind == "for" and hasattr(d.node, "iter")]
+                if not any("self.indices" in t or "self.args[1:]" in t for t in texts):
+                    continue
+                where = tree.func_of(node) or m  # the method the call is written in (a helper that was read through)
+                sites.setdefault((tree.loc(node), getattr(node, "col_offset", 0)), (node, where))
+    for (loc, _), (node, where) in sorted(sites.items()):
+        ok = node.func.attr == "subs"
+        ctx.verdict(ok, "R-BINDSUBST", f"{where.qual}::{node.func.attr} of own indices", loc,
+                    f"PoolSum.{where.name}: `{unparse(node)[:60]}` substitutes the sum's own index symbols into the summand with {node.func.attr}()",
+                    None if ok else "xreplace ignores binding: PoolSum(i + PoolSum(i**2, (i, (1, 2))), (i, (3,))).cleanup() rewrites the inner, shadowed index -> value 21 instead of 8")
+    if len(sites) < 2:
+        raise AnalysisError(f"only {len(sites)} substitutions of own indices found in PoolSum (evaluate and cleanup confirmed)")
 
 
 def check_external_expansion(ctx: Check, tree: Tree) -> None:
